@@ -162,6 +162,9 @@ func truthy(s string) bool { return !(s == "" || s == "false" || s == "no" || s 
 var c19Texts = []string{"plain", "with space", "quo\"te", "back\\slash", "new\nline", "tab\there", "é", "λ世", "😀", "a:b", "k:\"v\"", "x=y", "", "`tick`", "'single'", "trailing\\", "%d", "\x01ctl", "a  b"}
 
 func c19Text(r *Rand, id int) string {
+	if r.Chance(1, 9) {
+		return "" // an explicitly empty value is a value
+	}
 	return fmt.Sprintf("t%03d", id) + c19Texts[r.Intn(len(c19Texts))]
 }
 
@@ -318,7 +321,11 @@ func c19Fidelity(c *Ctx) {
 	}
 	// a nested group
 	gid := next()
-	grpItems := []kv{{"group", c19Text(r, gid)}}
+	gname := c19Text(r, gid)
+	if gname == "" {
+		gname = fmt.Sprintf("g%03d", gid) // (an empty group tag declares no group)
+	}
+	grpItems := []kv{{"group", gname}}
 	if r.Bool() {
 		grpItems = append(grpItems, kv{"description", c19Text(r, gid)})
 	}
